@@ -297,10 +297,33 @@ def _record(ctx, mode, extra, label, binp=None):
     return run_driver(ctx, ["-mode", mode, "-seed", str(ctx.seed)] + extra, label, binp=binp)
 
 
-def _pl_validate(ctx, events, out, name):
+PL_STALL_MS = 250       # if the harness's own 20 ms timer was ever this late, the machine was too busy to judge timing
+
+
+def _pl_stall(events):
+    return max([e.get("stall", 0) for e in events if e.get("e") == "End"] or [0])
+
+
+def _pl_validate(ctx, events, out, name, timing=True):
+    """Trace_PackerLoop on a recording.  timing=False: only the rules that do not depend on scheduling delays."""
     path = os.path.join(out, name + ".ndjson")
     write_ndjson(path, events)
-    return validate_trace(ctx, path, timeout=300, module="Trace_PackerLoop")
+    cfg = _cfg_text("Trace_PackerLoop.cfg")
+    if not timing:
+        cfg = "\n".join(l for l in cfg.splitlines() if not any(t in l for t in PL_TIMING)) + "\n"
+    r = ctx.tlc("rules", "Trace_PackerLoop", cfg="tpl.cfg", workers=1, timeout=300, dfs=True, count=False,
+                files={"trace.ndjson": path, "tpl.cfg": cfg}, label="trace:" + name)
+    if r.timeout:
+        raise Infra("packer loop trace validation timed out")
+    n = len(events)
+    if r.invariant:
+        m = re.findall(r"(\d+) states generated", r.out)
+        return False, int(m[-1]) - 2 if m else None, n, r
+    m = re.findall(r'TRACE-HWM",? (-?\d+),? (\d+)', r.out)
+    if not m:
+        raise Infra("Trace_PackerLoop did not report a high-water mark:\n" + r.out[-2000:])
+    hwm = int(m[-1][0])
+    return hwm == n and r.error is None and r.rc == 0, (None if hwm == n else hwm), n, r
 
 
 def packer_loop_and_solo(ctx, acc):
@@ -355,16 +378,30 @@ def packer_loop_and_solo(ctx, acc):
         how = {"args": ["-mode", "packerloop", "-runs", "3", "-blocks", "16", "-seed", str(ctx.seed)], "seed": ctx.seed,
                "note": "real-time run: a replay records a new run with the same schedule seed"}
         judge(ctx, res, events, "packerloop", how, acc)
-        accepted, pos, ln, r = _pl_validate(ctx, events, out, "packerloop")
+        stall = _pl_stall(events)
+        ctx.cov["packerloop_worst_timer_delay_ms"] = stall
+        timing = stall <= PL_STALL_MS
+        if not timing:
+            ctx.cov["packerloop_timing_rules_not_judged"] = "the harness's own timer was %d ms late: machine too busy" % stall
+        accepted, pos, ln, r = _pl_validate(ctx, events, out, "packerloop", timing)
         if not accepted:
             inv = r.invariant
             if inv is None:
                 raise Infra("packer loop trace: event %s is not a step of Trace_PackerLoop: %s" % (pos, json.dumps(events[min(pos or 0, len(events) - 1)])[:300]))
             confirmed = True
-            if inv in PL_TIMING:        # flakiness guard: the same rule has to fail on a second recording
-                res2, events2, out2 = _record(ctx, "packerloop", ["-runs", "3", "-blocks", "16"], "packerloop-again")
-                acc2, pos2, ln2, r2 = _pl_validate(ctx, events2, out2, "packerloop-again")
-                confirmed = (not acc2) and r2.invariant in PL_TIMING
+            if inv in PL_TIMING:
+                # a wall-clock rule: it has to fail, the same rule, on two further recordings with other schedules, each made
+                # on a machine that was not stalled; otherwise it is counted and not reported
+                for k in (1, 2):
+                    res2, events2, out2 = run_driver(ctx, ["-mode", "packerloop", "-seed", str(ctx.seed * 1000 + k), "-runs", "3", "-blocks", "16"],
+                                                     "packerloop-again%d" % k)
+                    if res2 is None or _pl_stall(events2) > PL_STALL_MS:
+                        confirmed = False
+                        break
+                    acc2, pos2, ln2, r2 = _pl_validate(ctx, events2, out2, "packerloop-again%d" % k)
+                    if acc2 or r2.invariant != inv:
+                        confirmed = False
+                        break
                 if not confirmed:
                     ctx.cov["packerloop_unconfirmed_timing_alarm"] = inv
             if confirmed:
